@@ -152,6 +152,28 @@ def _(h):
     h.eq('direction kept', Un * th, S, scale=1 + nsq(S))
 
 
+@claim('unittwist-below-zero-threshold')
+def _(h):
+    """rotational part non-zero but below the library's zero threshold (numerical noise): treated as irrotational"""
+    v = h.vec('v', 3, -1e6, 1e6)
+    w = h.vec('w', 3, -1e-15, 1e-15)
+    h.assume(nsq(v) >= 1e-6)
+    h.assume(nsq(w) <= 4e-30)
+    S = h.arr([v[0], v[1], v[2], w[0], w[1], w[2]])
+    for nm, U in (('unittwist', base.unittwist(S)), ('unittwist_norm', base.unittwist_norm(S)[0])):
+        h.eq(f'{nm}: unit translational part', nsq(U[0:3]), 1, tol=1e-12)
+    h.eq('Twist3.unit', nsq(Twist3(S).unit.v), 1, tol=1e-12)
+
+
+@claim('unittwist2-below-zero-threshold')
+def _(h):
+    v = h.vec('v', 2, -1e6, 1e6)
+    w = h.real('w', -1e-15, 1e-15)
+    h.assume(nsq(v) >= 1e-6)
+    S = h.arr([v[0], v[1], w])
+    h.eq('unit translational part', nsq(base.unittwist2(S)[0:2]), 1, tol=1e-12)
+
+
 @claim('unittwist-zero')
 def _(h):
     h.true('zero twist -> None', base.unittwist(h.arr([0, 0, 0, 0, 0, 0])) is None)
